@@ -40,6 +40,8 @@ Definition baction_of (v : V) : baction :=
   else if name_is op "hset" then BHset (vs (vnth 1 v)) (vs (vnth 2 v))
   else if name_is op "status" then BStatus (vz (vnth 1 v))
   else if name_is op "write" then BWrite (vs (vnth 1 v))
+  else if name_is op "readfault" then
+    BReadFault (if vz (vnth 1 v) =? 3 then EInvalidArgument else if vz (vnth 1 v) =? 8 then EResourceExhausted else EOther)
   else BFlush.
 
 Definition is_panic (w : wres) : bool := match w with WPanic => true | _ => false end.
@@ -83,8 +85,18 @@ Definition project (c : cproto) (final : hdrs) (out : list devent) (wr : list wr
        | DEnd _ :: _ => []
        | _ :: r => go r off last
        end) out 0 None in
+  (* bytes written after the end rendered into the body *)
+  let after_end :=
+    (fix go (l : list devent) (seen : bool) : Z :=
+       match l with
+       | [] => 0
+       | DEnd _ :: r => go r true
+       | DWrite b :: r => (if seen then Z.of_nat (length b) else 0) + go r seen
+       | _ :: r => go r seen
+       end) out false in
   VL ([VBool (is_panic res || existsb is_panic wr); Vnat (length heads)] ++ head ++ [VS data; VL ends;
-      VL (map (fun w => VBool (match w with WOk => true | _ => false end)) wr); VZl flushes]).
+      VL (map (fun w => VBool (match w with WOk => true | _ => false end)) wr); VZl flushes;
+      VZ (if framed then after_end else 0)]).
 
 Definition run_response : runner := fun suite i =>
   if name_is suite "serve.response" then
